@@ -163,7 +163,7 @@ A_ELEMS = 'element headers of mapped pages and their key bytes are stub views of
 PROPS['C07'] = dict(
     bounded_quick=[('history', 'Node::split / spill / write / free_page, InnerBucket::merge_nodes / rebalance / spill (Rc<RefCell<Node>> graph, float thresholds), Page::write_node / Node::from_page beyond the bounded Kani codec'), ('cursor', 'Node::split / spill / write / free_page, InnerBucket::merge_nodes / rebalance / spill (Rc<RefCell<Node>> graph, float thresholds), Page::write_node / Node::from_page beyond the bounded Kani codec')],
     level='other',
-    units=['pagenode', 'cursor', 'bucketops', 'range', 'filters'],
+    units=['pagenode', 'cursor', 'bucketops', 'range', 'filters', 'overlay'],
     explanation='A write transaction reads a MIXTURE of untouched mapped pages and modified in-memory nodes. Proved on the real bodies, for all node contents: '
                 'PageNode::{leaf, len, index_page, index, val} satisfy ONE contract stated over the node view (len, leaf, key(i), child(i)) whichever representation is behind it '
                 '(representation independence: the Page and the Node arm answer by the same specification, incl. the binary-search slot-before rule); Node::insert_data / delete are '
@@ -198,7 +198,7 @@ PROPS['C05'] = dict(
 PROPS['C01'] = dict(
     bounded_quick=[('history', 'Node::split / spill / write / free_page, InnerBucket::merge_nodes / rebalance / spill (Rc<RefCell<Node>> graph, float thresholds), Page::write_node / Node::from_page beyond the bounded Kani codec'), ('cursor', 'Node::split / spill / write / free_page, InnerBucket::merge_nodes / rebalance / spill (Rc<RefCell<Node>> graph, float thresholds), Page::write_node / Node::from_page beyond the bounded Kani codec')],
     level='other',
-    units=['pagenode', 'cursor', 'range', 'guards', 'bucketops', 'bytes', 'split', 'bucketcommit'],
+    units=['pagenode', 'cursor', 'range', 'guards', 'bucketops', 'bytes', 'split', 'bucketcommit', 'overlay'],
     kani_quick=['layout'],
     kani_thorough=['codec'],
     explanation='Leaf operations against the mathematical ordered map, for all sizes: Node::insert_data is map insert on a strictly ascending entry sequence (replace on equal key, insert at the sorted position otherwise, '
